@@ -677,7 +677,7 @@ HOSTS = ["a.example.org", "b.example.org", "trusted.net", "x.y.z", ""]
 HOST_PATS = ["*.example.org", "trusted.*", "*", "?.example.org", "a.example.org", "*.net", "nomatch.*", ""]
 NETS4 = [(10, 0, 0, 0), (10, 1, 2, 3), (192, 168, 0, 77), (127, 0, 0, 1), (10, 1, 255, 255), (11, 0, 0, 0), (0, 0, 0, 0), (0, 0, 0, 0), (128, 0, 0, 0)]
 NETS6 = [0x20010db8000000000000000000000001, 0x20010db8000100000000000000000002, 0xfe800000000000000000000000010002,
-         0x20010db9000000000000000000000001, 0, 0xffff00000000]
+         0x20010db9000000000000000000000001, 0, 0xffff00000000, 0x2001abcdef0000000000000000000001, 0xfc00dead0000beef0000000000000001]
 
 
 @st.composite
@@ -700,6 +700,14 @@ def mask_s(draw):
     net = draw(st.sampled_from(NETS6))
     gs = [(net >> (16 * (7 - j))) & 0xffff for j in range(8)]
     k = draw(st.integers(0, 2))
+    if draw(st.integers(0, 3)) == 0:
+        t, n_, b_ = draw(_mask6_s(net, gs, k))
+        return t.upper(), n_, b_              # hex digits may be written in either case
+    return draw(_mask6_s(net, gs, k))
+
+
+@st.composite
+def _mask6_s(draw, net, gs, k):
     if k == 0:
         n = draw(st.sampled_from([0, 1, 8, 15, 16, 17, 31, 32, 33, 47, 48, 64, 80, 96, 97, 104, 127, 128]))
         return ":".join("%x" % g for g in gs) + "/%d" % n, net, n
